@@ -58,7 +58,9 @@ def build(world, tier, seed, total, wall, rc, truncated, finding_status, known, 
 
 
 def write(world_id, ev):
-    d = os.path.join(VERIF, "evidence")
+    # (experiments against a deliberately broken tree - tools/try_seeded.py - redirect their evidence so that the committed
+    #  files always describe the tree as it is)
+    d = os.environ.get("VERIF_EVIDENCE_DIR") or os.path.join(VERIF, "evidence")
     os.makedirs(d, exist_ok=True)
     tmp = os.path.join(d, f".{world_id}.json.tmp")
     with open(tmp, "w") as f:
